@@ -291,12 +291,13 @@ class Interp:
         try:
             return self._inline(func, args, kwargs, node, closure)
         except CannotEvaluate as e:
-            if any(isinstance(a, (Sym, SStr)) or (isinstance(a, Obj) and isinstance(a.strval, SStr)) for a in args) \
+            if func.cls is None and len(args) == 1 and not kwargs and \
+                    any(isinstance(a, (Sym, SStr)) or (isinstance(a, Obj) and isinstance(a.strval, SStr)) for a in args) \
                     and len(self.trace) == mark_trace:
                 del self.events[mark_events:]
                 del self.assumptions[mark_asm:]
                 self.event("opaque_call", func=q, args=args, node=node, why=str(e), where=self._where(node),
-                           snapshot=self.theory.snapshot(), caller=getattr(self.cur_frame.func, "short", None))
+                           snapshot=self.theory.snapshot(), caller=getattr(getattr(self.cur_frame, "func", None), "short", None))
                 summ = self.opaque_summaries.get(q)
                 if summ is not None and len(args) == 1:
                     a0 = ops.strval(args[0])
@@ -848,10 +849,10 @@ class Interp:
             if r is None:
                 if name == "__class__":
                     return ClsRef(base.cls)
-                if base.strval is not None:
-                    return ExtRef("str." + name, recv=base)
                 if name == "__dict__":
                     return base.attrs
+                if base.strval is not None:
+                    return ExtRef("str." + name, recv=base)
                 self.may_raise("AttributeError", node, f"{base.cls.short} object has no attribute {name!r}", certain=True)
             return self._class_member(r, base, base.cls, name, node)
         if isinstance(base, ClsRef):
